@@ -121,19 +121,23 @@ class lldp (packet_base):
     type = typelen >> 9
     length = typelen & 0x01ff
 
-    if len(array) < length:
+    if len(array) < 2 + length:
       self.msg('(lldp tlv parse) warning TLV data too short to parse (%u)'
                % (len(array),))
       return
 
-    if type in lldp.tlv_parsers:
-      self.tlvs.append(lldp.tlv_parsers[type](array[0: 2 + length]))
-      return 2 + length
-    else:
-      self.msg('(lldp tlv parse) warning unknown tlv type (%u)'
-               % (type,))
-      self.tlvs.append(unknown_tlv(array[0: 2 + length]))
-      return 2 + length
+    try:
+      if type in lldp.tlv_parsers:
+        self.tlvs.append(lldp.tlv_parsers[type](array[0: 2 + length]))
+      else:
+        self.msg('(lldp tlv parse) warning unknown tlv type (%u)'
+                 % (type,))
+        self.tlvs.append(unknown_tlv(array[0: 2 + length]))
+    except Exception as e:
+      self.msg('(lldp tlv parse) warning malformed TLV of type %u: %s'
+               % (type, e))
+      return
+    return 2 + length
 
   def parse (self, raw):
     assert isinstance(raw, bytes)
